@@ -18,6 +18,7 @@ import (
 
 	"github.com/saucelabs/forwarder"
 	"github.com/saucelabs/forwarder/log"
+	"github.com/saucelabs/forwarder/verifhook/mheader"
 
 	"verifharness/accessrig"
 	"verifharness/coqfmt"
@@ -151,6 +152,49 @@ func matcherCases(r *rng.R, n int) ([]string, []any, int, int) {
 	return out, js, built, hits
 }
 
+// ---------------------------------------------------------------- hop-by-hop modifier, directly
+
+func hopCases(r *rng.R, n int) ([]string, []any) {
+	mod := mheader.NewHopByHopModifier()
+	var out []string
+	var js []any
+	emit := func(h http.Header) {
+		in := h.Clone()
+		req := &http.Request{Header: h}
+		if err := mod.ModifyRequest(req); err != nil {
+			return
+		}
+		out = append(out, fmt.Sprintf("{| k_in := %s; k_out := %s |}", coqfmt.Header(in), coqfmt.Header(req.Header)))
+		js = append(js, map[string]any{"kind": "hop-by-hop", "header": in})
+	}
+	conns := []string{"", ",", " ", "close", "keep-alive", "keep-alive, ", ", keep-alive", "keep-alive,,x-a", "keep-alive, \t ,x-a",
+		"proxy-authorization", "Proxy-Authorization", "PROXY-AUTHORIZATION", "authorization", "x-a, x-b", "x-a,x-b,", " x-a ", "te", "upgrade",
+		"keep-alive, authorization", ",,", "x-a;q=1", "x a", "\u00e9"}
+	names := []string{"Proxy-Authorization", "Authorization", "X-A", "X-B", "Keep-Alive", "Te", "Upgrade", "Proxy-Connection", "Trailer", "Transfer-Encoding", "Proxy-Authenticate", "Accept"}
+	for _, c1 := range conns {
+		for _, c2 := range []string{"-", "", "x-b", "proxy-authorization"} {
+			h := http.Header{"Proxy-Authorization": {"Basic Y2xpOmVudA=="}, "Authorization": {"Bearer t"}, "X-A": {"1"}, "X-B": {"2"}, "Accept": {"*/*"}}
+			h["Connection"] = []string{c1}
+			if c2 != "-" {
+				h["Connection"] = append(h["Connection"], c2)
+			}
+			emit(h)
+		}
+	}
+	for i := 0; i < n; i++ {
+		h := http.Header{}
+		for k := r.Intn(3); k > 0; k-- {
+			h["Connection"] = append(h["Connection"], r.Pick(conns))
+		}
+		for k := r.Intn(6); k > 0; k-- {
+			nm := r.Pick(names)
+			h[nm] = append(h[nm], r.Pick([]string{"", "v", "Basic eA==", "1, 2"}))
+		}
+		emit(h)
+	}
+	return out, js
+}
+
 // ---------------------------------------------------------------- end to end
 
 type Spec struct {
@@ -227,6 +271,14 @@ func paShapes(auth bool) []shape {
 		{"nominated", [][2]string{{"Connection", "Proxy-Authorization"}, {"Proxy-Authorization", v}}},
 		{"nominated-with-close", [][2]string{{"Connection", "keep-alive, proxy-authorization"}, {"Proxy-Authorization", v}}},
 		{"with-proxy-connection", [][2]string{{"Proxy-Connection", "keep-alive"}, {"Proxy-Authorization", v}}},
+		// Connection values with EMPTY list elements
+		{"conn-trailing-comma", [][2]string{{"Connection", "keep-alive, "}, {"Proxy-Authorization", v}}},
+		{"conn-leading-comma", [][2]string{{"Connection", ", keep-alive"}, {"Proxy-Authorization", v}}},
+		{"conn-double-comma", [][2]string{{"Connection", "keep-alive,,x-vf-hop"}, {"X-Vf-Hop", "1"}, {"Proxy-Authorization", v}}},
+		{"conn-empty-value", [][2]string{{"Connection", ""}, {"Proxy-Authorization", v}}},
+		{"conn-whitespace-element", [][2]string{{"Connection", "keep-alive, \t ,x-vf-hop"}, {"X-Vf-Hop", "1"}, {"Proxy-Authorization", v}}},
+		{"conn-only-comma", [][2]string{{"Connection", ","}, {"Proxy-Authorization", v}}},
+		{"conn-two-lines-one-empty", [][2]string{{"Connection", ""}, {"Connection", "proxy-authorization"}, {"Proxy-Authorization", v}}},
 	}
 	if !auth {
 		s = append(s, shape{"absent", nil},
@@ -321,6 +373,7 @@ type Meta struct {
 	ByPAShape    map[string]int `json:"exchanges_by_client_proxy_authorization_shape"`
 	ByMethod     map[string]int `json:"exchanges_by_method"`
 	ByScheme     map[string]int `json:"exchanges_by_scheme"`
+	HopCases     int            `json:"hop_by_hop_cases"`
 	MatcherCases int            `json:"matcher_cases"`
 	MatcherBuilt int            `json:"matcher_cases_table_accepted"`
 	MatcherHits  int            `json:"matcher_cases_with_a_match"`
@@ -556,6 +609,9 @@ func main() {
 		if *tier == "thorough" {
 			n = 20000
 		}
+		kc, kj := hopCases(r, n/4)
+		emit("kcases", "kcase", "kcase_model_ok", "kcase_prop_ok", kc, kj)
+		m.HopCases = len(kc)
 		mc, mj, built, hits := matcherCases(r, n)
 		emit("mcases", "mcase", "mcase_model_ok", "mcase_prop_ok", mc, mj)
 		m.MatcherCases, m.MatcherBuilt, m.MatcherHits = len(mc), built, hits
